@@ -75,14 +75,18 @@ def _abs_trace(tr, orig_func=None):
     return out
 
 
-def run_call(tid, fname, func, args, ret, yld):
+def run_call(tid, fname, func, args, ret, yld, args2=None):
     from monkeytype.encoding import CallTraceRow
     from monkeytype.tracing import CallTrace
     tr = CallTrace(func, args, ret, yld)
-    rec = {"tid": tid, "ev": "C", "func": fname, "orig": _abs_trace(tr), "err": "NONE",
+    rec = {"tid": tid, "ev": "C", "func": fname, "orig": _abs_trace(tr), "err": "NONE", "rows_equal": True,
            "back": {"same": False, "args": [], "ret": absmodel.ABSENT, "yld": absmodel.ABSENT}}
     try:
         row = CallTraceRow.from_trace(tr)
+        if args2 is not None:
+            # the same trace with structurally equal types built along another construction order must give the same row
+            row_b = CallTraceRow.from_trace(CallTrace(func, dict(reversed(list(args2.items()))), ret, yld))
+            rec["rows_equal"] = (row.arg_types, row.return_type, row.yield_type) == (row_b.arg_types, row_b.return_type, row_b.yield_type)
         # the row goes through the same text columns as in the store
         row2 = CallTraceRow(row.module, row.qualname, row.arg_types, row.return_type, row.yield_type)
         rec["back"] = _abs_trace(row2.to_trace(), func)
@@ -116,8 +120,10 @@ def _run_chunk(chunk):
             ts = [absmodel.real_type(t, make_td=mk) for t in job["types"]]
             names = list(f.__code__.co_varnames[:f.__code__.co_argcount + f.__code__.co_kwonlyargcount]) or ["x"]
             args = {n: ts[i % len(ts)] for i, n in enumerate(names)}
+            ts2 = [absmodel.real_type(t, make_td=mk, reverse_keys=True) for t in job["types"]]
+            args2 = {n: ts2[i % len(ts2)] for i, n in enumerate(names)}
             sel = {"absent": None, "none": type(None), "type": ts[-1]}
-            out.append(run_call(job["tid"], job["func"], f, args, sel[job["ret"]], sel[job["yld"]]))
+            out.append(run_call(job["tid"], job["func"], f, args, sel[job["ret"]], sel[job["yld"]], args2))
     return out
 
 
